@@ -42,6 +42,14 @@ def corpus():
         # fixed: an eager assignment on an expired instance re-cached one attribute, which survived the next expire()
         {'cfg': {'cache': True, 'freq': 100, 'frac': 2},
          'ops': [['create', 0, [[1, 100], [2, 1]]], ['expire', 0], ['setattr', 0, 2, 0], ['rawupdate', 0, 1, 2, 7], ['expire', 0], ['read', 0, 2]]},
+        # fixed (e94d801): the lazy analogue -- the assignment has to show, the value stayed cached after the flush, and the
+        # second expire() returned early on the flag
+        {'cfg': {'cache': True, 'freq': 100, 'frac': 2},
+         'ops': [['create', 1, [[1, 100]]], ['expire', 0], ['setattr', 0, 0, 3], ['syncupdate', 0], ['rawupdate', 1, 1, 0, 8], ['expire', 0],
+                 ['read', 0, 0]]},
+        # fixed (ab43260): a reload hid the unwritten assignment of a lazy object
+        {'cfg': {'cache': True, 'freq': 100, 'frac': 2},
+         'ops': [['create', 1, [[1, 100]]], ['expire', 0], ['setattr', 0, 0, 3], ['read', 0, 2], ['read', 0, 0], ['syncupdate', 0]]},
         # second instance after expire, written through: the held one goes stale (open finding of C04)
         {'cfg': {'cache': True, 'freq': 100, 'frac': 2},
          'ops': [['create', 0, [[1, 100], [0, 1]]], ['expire', 0], ['get', 0, 1], ['read', 0, 0], ['setattr', 1, 0, 4], ['read', 0, 0]]},
@@ -78,7 +86,7 @@ def failures(case, obs):
             return {'purged': (v[0], v[1]) in info['purged'] and len(objs.get((v[0], v[1]), ())) >= 2,
                     'destroyed': (v[0], v[1]) in info['destroyed'], 'cache': case['cfg']['cache'],
                     'assigned_while_expired': (v[0], v[1]) in awe}
-        for f in L.coherence_failures(st, skip_slots=info['tainted'] | tainted_now(info), lazy_row_ok=True):
+        for f in L.coherence_failures(st, skip_slots=info['tainted'] | tainted_now(info)):
             v = st['slots'][f['slot']]
             d = {'step': info['n'], 'op': info['op'], 'what': 'held instance %s/%d shows %r for column %s, the row has %r' % (
                 L.KINDS[v[0]], v[1], f['cached'], L.COLS[f['col']], f['row']), 'row': [v[0], v[1]]}
@@ -137,8 +145,6 @@ def classify(case, obs, f):
     # destroyed row still handed out, a write through one of them leaves the other stale
     if f.get('purged'):
         return 'stale_after_expire_purged_identity'
-    if f.get('assigned_while_expired'):
-        return 'lazy_assignment_on_expired_object_hidden_by_reload'
     return None
 
 
